@@ -400,6 +400,8 @@ class TensoredConfusionMatrices:
             return NotImplemented
         return (
             self.qubits == other.qubits
+            # the matrices are indexed by the qubits of their pattern in the order given
+            and self.measure_qubits == other.measure_qubits
             and self.repetitions == other.repetitions
             and self.timestamp == other.timestamp
             and all(
@@ -413,6 +415,8 @@ class TensoredConfusionMatrices:
             return NotImplemented
         return (
             self.qubits == other.qubits
+            # the matrices are indexed by the qubits of their pattern in the order given
+            and self.measure_qubits == other.measure_qubits
             and self.repetitions == other.repetitions
             and self.timestamp == other.timestamp
             and all(
